@@ -307,7 +307,7 @@ def eval_cases(outdir, case_files, timeout=1500):
         rc, out = run(["coqc", "-Q", COQ, "Ecal", f], cwd=outdir, timeout=timeout)
         return f, rc, out
 
-    with concurrent.futures.ThreadPoolExecutor(max_workers=int(os.environ.get("VERIF_JOBS", "12"))) as ex:
+    with concurrent.futures.ThreadPoolExecutor(max_workers=int(os.environ.get("VERIF_JOBS", "8"))) as ex:
         for f, rc, out in ex.map(one, case_files):
             if rc != 0:
                 errors.append("%s: coqc failed:\n%s" % (f, out[-3000:]))
